@@ -7,7 +7,9 @@ VERIF = os.path.dirname(os.path.dirname(os.path.abspath(__file__)))
 
 NOTE_COMMON = ("Trusted: Lean 4.33 kernel + Mathlib v4.33 (axioms propext, Classical.choice, Quot.sound only; audited each run), "
                "the translators harness/translate*.py (Python ast -> Lean), the correspondence harness/driver I/O. Modelled not verified: IEEE-754 rounding, jnp.fft "
-               "(as DFT sums), JAX tracing/jit/vmap/AD, jax.random.")
+               "(as DFT sums), JAX tracing/jit/vmap/AD, jax.random. Tiers: quick = translate + lake build + axiom audit + correspondence + a fixed small set of "
+               "property-level probes (the full failing-input search only after a break); thorough = the same with larger sweeps, leanchecker on "
+               "the compiled property modules, and the full property-level search on every run.")
 
 CLAIMS = {
     "C02": {
@@ -31,8 +33,11 @@ CLAIMS = {
                 "converge with order 1 resp. 2 (ETDRK2: N(u(t)) with a Lipschitz derivative along the solution) with explicit "
                 "constants depending on the spectrum only through max(0, sup Re lambda) (stiffness-uniform); with coefficients "
                 "perturbed by delta*dt the linear-test bounds hold up to a floor C''*delta, hence for the STORED contour "
-                "coefficients (regenerated E?_coef_i dt lambda 16 1, real lambda<=0, delta=5e-8), p = 1..4. NOT proved: order 3, 4 "
-                "for genuinely nonlinear N - measured by the oracle against an independent DOP853 reference.",
+                "coefficients (regenerated E?_coef_i dt lambda 16 1, real lambda<=0, delta=5e-8), p = 1..4. ETDRK3 and ETDRK4 with genuinely "
+                "nonlinear N (systems with diagonal L): classical order 3 resp. 4, local error C h^{p+1} and global error C dt^p with "
+                "explicit constants (depending on sup|lambda|), under a Taylor hypothesis on N(u(t)) and a linearisation of N along the "
+                "solution. NOT proved: stiffness-uniform constants for orders 3, 4 (the stiff order is lower in general) and the nonlinear "
+                "results for stored instead of exact coefficients - measured by the oracle against an independent DOP853 reference.",
         "technique": "Lean 4 proof over translated ETDRK definitions + model/implementation correspondence",
         "design_ref": "DESIGN.md §5 C02",
     },
@@ -139,7 +144,7 @@ CLAIMS = {
                 "the model Spectrum.spectrum in every dimension: a cos(k.x+phi) shows |a| (amplitude) resp. a^2/4 (power) in the bin "
                 "of |k| and 0 elsewhere; 1-D full Parseval identity for every real state and both binnings; n-D: summed power + "
                 "power of the stored modes outside the Nyquist sphere = half the mean square. get_spectrum / get_fourier_coefficients REGENERATED from "
-                "_spectral.py (scan over bins as a fold) equal the model read-offs. average = sum / (number of stored modes of the bin) for every D, state and bin; every bin up to N/2 is populated. Correspondence: the bin of every "
+                "_spectral.py (scan over bins as a fold) equal the model read-offs. average = sum / (number of stored modes of the bin) for every D, state and bin; every bin up to N/2 is populated. Read-off INCLUDING Nyquist wavenumbers (even N): self-conjugate waves show |a cos(phi)|, other Nyquist waves |a| resp. a^2/4, Nyquist waves outside the sphere appear in no bin. Correspondence: the bin of every "
                 "stored mode (exact) and full spectra (power/amplitude x sum/average x channels) vs the Spectrum model. Oracle: "
                 "amplitude read-off for every wavenumber vector, Parseval with the Nyquist-sphere truncation, average = sum / count.",
         "technique": "Lean 4 proof (integer bin arithmetic + n-D DFT read-off through the spectrum model) + exact per-mode correspondence",
@@ -181,7 +186,7 @@ CLAIMS = {
                 "ETDRK order updates a -> e^z a + dt phi1(z) f and from rest a_n = f (e^{n z}-1)/sigma for every n, dt (laminar "
                 "solution); steady amplitude is a fixed point; at rest the 2-D vorticity model term returns exactly rfftn of "
                 "-m(2pi/L)gamma cos(m 2pi x_1/L) and the 3-D velocity term rfftn of gamma sin(m 2pi x_1/L) in channel 0 and zero in "
-                "channels 1, 2 (every N with 2m<N, any convection scale / dealiasing). WHOLE spectrum: the 2-D vorticity convection vanishes on every shear spectrum, so from rest every order moves only the forced mode (exact coefficients: f(e^{n sigma dt}-1)/sigma there, 0 elsewhere; stored coefficients: all four orders the same trajectory); 3-D for the two Kolmogorov modes (_partial). Correspondence: injected spectra, rest-start "
+                "channels 1, 2 (every N with 2m<N, any convection scale / dealiasing). WHOLE spectrum: the 2-D vorticity convection vanishes on every shear spectrum, so from rest every order moves only the forced mode (exact coefficients: f(e^{n sigma dt}-1)/sigma there, 0 elsewhere; stored coefficients: all four orders the same trajectory); 3-D for the two Kolmogorov modes (_partial). 3-D: the rotational term vanishes on EVERY real shear profile (f(x_1),0,0), any N, any mask, Nyquist content included. Correspondence: injected spectra, rest-start "
                 "rollouts for L in {2pi,1,5}, ForcedStepper over several base steppers. Oracle: laminar closed form of the "
                 "documented forcing with varied convection scale and sign. (Repaired forcing defects: known_findings.json, fixed.)",
         "technique": "Lean 4 proof (recurrence/closed form + per-mode injection) + model/implementation correspondence",
@@ -263,7 +268,7 @@ CLAIMS = {
                 "caveat for odd-order terms on even grids); symbol-level permutation and 1-D embedding for every D; stage formulas "
                 "under arbitrary mode relabellings. Not proved in Lean: axis permutations of the nonlinear terms and 3-D axis "
                 "permutations at the transform level (correspondence of each stepper with the model + oracle on the implementation: "
-                "shifts, axis swaps with permuted anisotropic coefficients, reflections, embedding, incl. the Wave stepper). AXIS PERMUTATIONS and 1-D EMBEDDING in every D: the spectrum of a permuted real state is the relabelled spectrum (every state); isotropic single-channel terms commute with axis permutations and multi-channel convection with the joint axis-and-channel permutation; ETDRK steps and rollouts of isotropic steppers commute with the permutation on real Nyquist-free states when N is odd or dealiasing is active (false for even N without dealiasing: recorded); the D-dimensional step of a 1-D state embedded along the last axis is the embedding of the 1-D step for every state.",
+                "shifts, axis swaps with permuted anisotropic coefficients, reflections, embedding, incl. the Wave stepper). AXIS PERMUTATIONS and 1-D EMBEDDING in every D: the spectrum of a permuted real state is the relabelled spectrum (every state); isotropic single-channel terms commute with axis permutations and multi-channel convection with the joint axis-and-channel permutation; ETDRK steps and rollouts of isotropic steppers commute with the permutation on real Nyquist-free states when N is odd or dealiasing is active (false for even N without dealiasing: recorded); the D-dimensional step of a 1-D state embedded along the last axis is the embedding of the 1-D step for every state. Cahn-Hilliard and pointwise reactions commute with every axis permutation; the 2-D vorticity term and step commute with omega -> -P_sigma omega under the axis swap (pseudo-scalar).",
         "technique": "Lean 4 proof (DFT shift theorem + equivariance of model terms and translated stage formulas) + correspondence",
         "design_ref": "DESIGN.md §5 C08",
     },
@@ -276,7 +281,7 @@ CLAIMS = {
                 "no-work identities on dealiased states through the model pipeline: Burgers <u, N(u)> = 0 (1-D), 2-D vorticity form "
                 "enstrophy <w, N(w)> = 0 and energy <psi, N(w)> = 0, 3-D rotational form <u, P(u x w)> = 0 for every velocity that "
                 "is divergence-free on the retained modes (in particular after Leray projection), with the underlying triad "
-                "identities for any truncated spectrum. Equilibria: transport terms vanish on constants, reaction terms map constants to constants, L(0)u+N(u)=0 at the documented equilibria of FisherKPP/AllenCahn/SwiftHohenberg/GrayScott through the regenerated wiring; with the STORED coefficients an equilibrium is exactly fixed iff the scalar defect e^z-1-z*mean(phi1) vanishes at the mean-mode symbol (always for transport equations), within |lambda dt|*5e-8 otherwise (the naive exact statement is proved false). Correspondence: every listed stepper vs the model on white-noise and "
+                "identities for any truncated spectrum. Equilibria: transport terms vanish on constants, reaction terms map constants to constants, L(0)u+N(u)=0 at the documented equilibria of FisherKPP/AllenCahn/SwiftHohenberg/GrayScott through the regenerated wiring; with the STORED coefficients an equilibrium is exactly fixed iff the scalar defect e^z-1-z*mean(phi1) vanishes at the mean-mode symbol (always for transport equations), within |lambda dt|*5e-8 otherwise (the naive exact statement is proved false). Mean of the 3-D velocity stepper: the mean mode of the rotational term is mask(0) sum_x u_i div(u), zero exactly on divergence-free spectra, so every order and rollout keeps the mean of each channel on divergence-free states (counterexample for general spectra). Correspondence: every listed stepper vs the model on white-noise and "
                 "smooth states. Oracle: mean drift, constant equilibria of the documented equations, no-work identities on "
                 "band-limited states.",
         "technique": "Lean 4 proof (mean-mode algebra of translated stage formulas + model terms) + correspondence",
